@@ -88,7 +88,11 @@ static int mark_global(int N)
 
 int main(void)
 {
+#ifdef NPB
+    int N = NPB;
+#else
     int N = nondet_int(); __CPROVER_assume(N >= 1 && N <= 4);
+#endif
     GP.num_headers_per_bucket = N; GP.partial_bucket = NULL; GP.bucket_lifo.p_top.ptr = NULL; GP.bucket_lifo.p_top.tag = nondet_size_t();
     GP.mem_page_lifo.p_top.ptr = NULL; GP.mem_page_lifo.p_top.tag = nondet_size_t(); GP.p_mem_page_empty.val = NULL;
     GP.mprotect_config.enabled = ABT_FALSE;
@@ -114,6 +118,130 @@ int main(void)
     if (P + B > N) VR_WITNESS("partial + returned headers exceed one bucket: a bucket is completed and a remainder is kept");
     if (P + B == N) VR_WITNESS("partial + returned headers make exactly one bucket");
     if (P > 0 && P + B < N) VR_WITNESS("still partial");
+#endif
+#if MODE == 1
+#ifdef U
+    int u = U; size_t off = OFF;                                       /* one obligation per (u, offset): keeps the byte-level page model small */
+#else
+    int u = nondet_int(); __CPROVER_assume(u >= 0 && u <= 2);          /* headers of page 0 already handed out earlier */
+    size_t off = nondet_bool() ? 0 : (nondet_bool() ? 16 : 48);
+#endif
+    GP.header_size = HS; GP.header_offset = off; GP.page_size = PGSZ; GP.alignment_hint = 64; GP.num_lp_type_requests = 1; GP.lp_type_requests[0] = ABTU_MEM_LARGEPAGE_MALLOC;
+    fail_at = nondet_int(); __CPROVER_assume(fail_at >= 0 && fail_at <= 3);   /* 0: no failure */
+    if (u > 0) {   /* page 0 exists and still has room: it sits in the LIFO of pages with room */
+        ABTI_mem_pool_page *pg = (ABTI_mem_pool_page *)(PG0 + PGSZ - sizeof(ABTI_mem_pool_page));
+        pg->mem = PG0; pg->page_size = PGSZ; pg->lp_type = ABTU_MEM_LARGEPAGE_MALLOC; pg->p_mem_extra = PG0 + u * HS; pg->mem_extra_size = PGSZ - sizeof(ABTI_mem_pool_page) - u * HS;
+        pg->lifo_elem.p_next = NULL; GP.mem_page_lifo.p_top.ptr = &pg->lifo_elem; npages = 1;
+    }
+    ABTI_mem_pool_header *bucket = NULL;
+    int r = ABTI_mem_pool_take_bucket(&GP, &bucket);
+    /* page accounting */
+    int carved = 0, inlifo = 0, inempty = 0;
+    for (int q = 0; q < 3; q++) if (q < npages) {
+        ABTI_mem_pool_page *pg = (ABTI_mem_pool_page *)(PGP[q] + PGSZ - sizeof(ABTI_mem_pool_page));
+        long c = ((char *)pg->p_mem_extra - PGP[q]) / HS;
+        VR_ASSERT(pg->mem == PGP[q] && c >= 0 && c <= KPP && (char *)pg->p_mem_extra == PGP[q] + c * HS, "page bookkeeping: the unused part starts at a block boundary inside the page");
+        VR_ASSERT(pg->mem_extra_size == PGSZ - sizeof(ABTI_mem_pool_page) - c * HS, "page bookkeeping: remaining size matches the blocks carved");
+        carved += c;
+        int l = 0, e = 0;
+        for (ABTI_sync_lifo_element *x = (ABTI_sync_lifo_element *)GP.mem_page_lifo.p_top.ptr; x; x = x->p_next) if (x == &pg->lifo_elem) l++;
+        for (ABTI_mem_pool_page *x = (ABTI_mem_pool_page *)GP.p_mem_page_empty.val; x; x = x->p_next_empty_page) if (x == pg) e++;
+        VR_ASSERT(l + e == 1, "every page is registered exactly once (so that finalize frees it exactly once)");
+        VR_ASSERT((l == 1) == (pg->mem_extra_size >= HS), "a page is offered for carving exactly while it has room for a block");
+        inlifo += l; inempty += e;
+    }
+    int used[3][KPP] = { { 0 } };
+    if (r == ABT_SUCCESS) {
+        VR_ASSERT(bucket != NULL && bucket->bucket_info.num_headers == (size_t)N, "a taken bucket announces N blocks");
+        ABTI_mem_pool_header *h = bucket;
+        for (int i = 0; i < 4; i++) if (i < N) {
+            int found = 0;
+            for (int q = 0; q < 3; q++) for (int j = 0; j < KPP; j++) if (q < npages && (char *)h == PGP[q] + j * HS + off) { found++; VR_ASSERT(!used[q][j], "the blocks of a bucket are pairwise distinct"); used[q][j] = 1; VR_ASSERT(q != 0 || j >= u, "a block handed out earlier is never carved again (no overlap with a live block)"); }
+            VR_ASSERT(found == 1, "every block of the bucket lies at a block boundary inside a page, clear of the page descriptor");
+            if (found != 1) break;
+            h = h->p_next;
+        }
+        VR_ASSERT(h == NULL, "the bucket ends after N blocks");
+        VR_ASSERT(carved == u + N, "exactly N new blocks were carved");
+        VR_ASSERT(GP.partial_bucket == NULL && GP.bucket_lifo.p_top.ptr == NULL, "nothing else appears in the global pool");
+#if !defined(NPB) || (NPB == 4 && U == 2)
+        if (npages == 2 && N == 4 && u == 2) VR_WITNESS("bucket assembled from the rest of an old page and a fresh page");
+#endif
+#if !defined(NPB) || (NPB + U >= 3)
+        if (inempty >= 1) VR_WITNESS("a page became full and moved to the list of full pages");
+#endif
+        VR_WITNESS("take_bucket succeeded by carving");
+    } else {
+        VR_ASSERT(r == ABT_ERR_MEM && fail_at != 0, "take_bucket fails only when a page allocation failed");
+        VR_ASSERT(bucket == NULL, "no bucket is returned on failure");
+        VR_ASSERT(GP.bucket_lifo.p_top.ptr == NULL, "an incomplete bucket is never offered as a complete one");
+        int got = carved - u;
+        if (got == 0) VR_ASSERT(GP.partial_bucket == NULL, "nothing carved, nothing kept");
+        else {
+            VR_ASSERT(GP.partial_bucket != NULL && GP.partial_bucket->bucket_info.num_headers == (size_t)got, "blocks carved before the failure are kept in the partial bucket with the right counter");
+            ABTI_mem_pool_header *h = GP.partial_bucket;
+            for (int i = 0; i < 4; i++) if (i < got && h) {
+                int found = 0;
+                for (int q = 0; q < 3; q++) for (int j = 0; j < KPP; j++) if (q < npages && (char *)h == PGP[q] + j * HS + off) { found++; VR_ASSERT(!used[q][j], "kept blocks are pairwise distinct"); used[q][j] = 1; }
+                VR_ASSERT(found == 1, "kept blocks are real blocks");
+                h = h->p_next;
+            }
+            VR_ASSERT(h == NULL, "the partial bucket ends after its blocks");
+#if !defined(NPB) || (NPB == 4) || (NPB + U > 3 && U > 0)
+            VR_WITNESS("page allocation failed after some blocks had been carved");
+#endif
+        }
+    }
+#endif
+#if MODE == 2
+    int bi = nondet_int(), c = nondet_int(), gb = nondet_int(); __CPROVER_assume(bi >= 0 && bi <= 1 && c >= 1 && c <= N && gb >= 0 && gb <= 1 && N >= 2 && N <= 3);
+    LP.p_global_pool = &GP; LP.num_headers_per_bucket = N; LP.bucket_index = bi;
+    if (bi == 1) { LP.buckets[0] = chain(N, &next); LP.buckets[0]->bucket_info.num_headers = N; }
+    LP.buckets[bi] = chain(c, &next); LP.buckets[bi]->bucket_info.num_headers = c;
+    int nlocal = next;
+    if (gb) { ABTI_mem_pool_header *b = chain(N, &next); b->bucket_info.lifo_elem.p_next = NULL; GP.bucket_lifo.p_top.ptr = &b->bucket_info.lifo_elem; }
+    int total = next;                       /* headers 0..total-1 are free blocks, header 9 is a block owned by the caller */
+    ABTI_mem_pool_header *cur0 = LP.buckets[bi];
+    void *blk = NULL; int r = ABT_SUCCESS;
+#if OP == 0
+    r = ABTI_mem_pool_alloc(&LP, &blk);
+#else
+    H9.p_next = HP[nondet_bool() ? 0 : 9]; H9.bucket_info.num_headers = nondet_size_t();     /* garbage left by the user */
+    ABTI_mem_pool_free(&LP, &H9);
+#endif
+    int bi2 = LP.bucket_index;
+    VR_ASSERT(bi2 >= 0 && bi2 < ABT_MEM_POOL_MAX_LOCAL_BUCKETS, "bucket index stays in range");
+    int nfree = 0;
+    if (bi2 >= 0 && bi2 < ABT_MEM_POOL_MAX_LOCAL_BUCKETS) {
+        for (int i = 0; i < ABT_MEM_POOL_MAX_LOCAL_BUCKETS; i++) if (i < bi2) { VR_ASSERT(LP.buckets[i]->bucket_info.num_headers == (size_t)N, "buckets below the current one are full"); mark_chain(LP.buckets[i], N, 1); nfree += N; }
+        size_t c2 = LP.buckets[bi2]->bucket_info.num_headers;
+        VR_ASSERT(c2 >= 1 && c2 <= (size_t)N, "the current bucket holds between 1 and N blocks (the pool never runs empty)");
+        if (c2 >= 1 && c2 <= (size_t)N) { mark_chain(LP.buckets[bi2], c2, 1); nfree += c2; }
+    }
+    nfree += N * mark_global(N);
+    VR_ASSERT(GP.partial_bucket == NULL, "single alloc/free never creates a partial bucket");
+#if OP == 0
+    if (r == ABT_SUCCESS) {
+        int k = hidx((ABTI_mem_pool_header *)blk);
+        VR_ASSERT(k >= 0 && k < total, "the block handed out was a free block of this pool");
+        if (k >= 0) VR_ASSERT(seen[k] == 0, "the block handed out is no longer free (it cannot be handed out twice)");
+        VR_ASSERT(nfree == total - 1, "exactly one block left the pool");
+        for (int i = 0; i < NH; i++) if (i < total && i != k) VR_ASSERT(seen[i] != 0, "no other free block is lost");
+        if (bi == 0 && c == 1 && gb) VR_WITNESS("the last local block was handed out and a bucket was taken from the global pool");
+        if (bi == 1 && c == 1) VR_WITNESS("the current bucket ran empty, the pool steps down to the full bucket below");
+    } else {
+        VR_ASSERT(r == ABT_ERR_MEM && bi == 0 && c == 1 && !gb, "allocation fails only when the pool must refill and the refill fails");
+        VR_ASSERT(blk == NULL && nfree == total && LP.bucket_index == (size_t)bi && LP.buckets[bi] == cur0, "a failed allocation leaves the pool unchanged");
+        for (int i = 0; i < NH; i++) if (i < total) VR_ASSERT(seen[i] != 0, "no free block is lost by a failed allocation");
+        VR_WITNESS("refill failed: allocation reports an error");
+    }
+#else
+    VR_ASSERT(seen[9] != 0, "the freed block is free afterwards");
+    VR_ASSERT(nfree == total + 1, "exactly one block entered the pool");
+    for (int i = 0; i < NH; i++) if (i < total) VR_ASSERT(seen[i] != 0, "no free block is lost by a free");
+    if (bi == 1 && c == N) VR_WITNESS("both local buckets were full: the oldest went back to the global pool");
+    if (bi == 0 && c == N) VR_WITNESS("the current bucket was full: a new bucket is started");
+#endif
 #endif
     return 0;
 }
